@@ -18,6 +18,15 @@ import (
 // wrapper resources: forward every call to a real resource, count Close per instance
 // ---------------------------------------------------------------------------------------------
 
+var errRunaway = errors.New("c17: archetype still running many label boundaries after Stop was called")
+
+func runawayLimit(S Scenario) int {
+	if S.Mode == "jit" {
+		return 2000000 // the callers are only known to be about to call Stop
+	}
+	return 2000 // det: every caller is known to be parked inside Stop
+}
+
 var errHard = errors.New("c17: injected resource hard error")
 var errClose = errors.New("c17: injected Close error")
 
@@ -58,7 +67,11 @@ func (w *wrap) Index(iface distsys.ArchetypeInterface, idx tla.Value) (distsys.A
 func (w *wrap) Close() error {
 	n := atomic.AddInt32(&w.closes, 1)
 	w.sc.closeCalled(w, n)
+	if w.sc.S.Mix == "nested" && w.id == "m" {
+		atomic.StoreInt32(&w.sc.nestedCloseBegan, 1)
+	}
 	err := w.inner.Close()
+	atomic.StoreInt32(&w.sc.nestedCloseBegan, 0)
 	if w.fault == "close" {
 		return errClose
 	}
@@ -103,6 +116,15 @@ type scen struct {
 	bodySpin     int
 	runExit      int32 // atomic: RunExit hook fired
 
+	abandon      chan struct{}
+	st           *stoppers
+	stopsSettled int32 // det: every Stop caller has arrived inside Stop
+	stopsCalling int32 // jit: number of Stop callers that are about to call Stop
+	sinceStop    int   // label boundaries passed by an endless archetype after that
+
+	nestedCloseBegan int32 // the outer cleanup is inside the nested resource's Close
+	nestedAfterClose int32 // label boundaries the nested context passed meanwhile
+
 	nestedRes distsys.ArchetypeResource // mix nested: to shut the nested contexts down if the outer run never started
 	cleanup   []func()
 }
@@ -120,6 +142,7 @@ func (sc *scen) ev(kind, who string) {
 	if sc.S.Mode != "det" {
 		return
 	}
+	atomic.AddInt64(&progress, 1)
 	sc.mu.Lock()
 	sc.seq++
 	sc.out.write(map[string]any{"kind": "ev", "id": sc.S.ID, "seq": sc.seq, "ev": kind, "who": who})
@@ -246,6 +269,10 @@ func (sc *scen) build() {
 			}
 			return sc.newWrap(fmt.Sprintf("m[%v]", idx), "incmap-element", true, el)
 		})
+		// realise the local mailbox now, so that the listener exists before the first write to the remote end
+		if _, err := m.Index(iface0, num(0)); err != nil {
+			panic(err)
+		}
 		cfg = append(cfg, distsys.EnsureArchetypeRefParam("m", sc.newWrap("m", "configured", true, m)))
 		refs = append(refs, name+".m")
 	case S.Mix == "fd":
@@ -367,6 +394,14 @@ func (sc *scen) archetype(name string, refs []string) distsys.MPCalArchetype {
 		sc.ev("body", fmt.Sprintf("work#%d", i))
 		if S.End == "stop" && i == 1 {
 			atFinal() // the section a Stop interrupts
+		}
+		if S.End == "stop" && (atomic.LoadInt32(&sc.stopsSettled) == 1 || (S.Mode == "jit" && int(atomic.LoadInt32(&sc.stopsCalling)) == S.Stops)) {
+			// an endless archetype must be pre-empted at a label boundary once Stop was called; count the boundaries
+			sc.sinceStop++
+			if sc.sinceStop > runawayLimit(S) {
+				sc.ev("runaway", fmt.Sprint(sc.sinceStop))
+				return errRunaway
+			}
 		}
 		v, err := iface.RequireArchetypeResourceRef(name + ".v")
 		if err != nil {
